@@ -144,8 +144,13 @@ def ser_object(o: ObjectT, v, sx: SerCtx):
         if fset is not None and f.name not in fset:
             continue
         from vf.spec import strip
-        non_none = [a for a in (flat_alts(f.t) if isinstance(f.t, Union_) else [f.t]) if not (isinstance(strip(a), Prim) and strip(a).p == "none")]
-        has_none = isinstance(f.t, Union_) and len(non_none) < len(flat_alts(f.t))
+        ut = f.t
+        while isinstance(ut, Ann):  # Annotated[Optional[X], ...] is still an Optional field
+            ut = ut.t
+        non_none = [a for a in (flat_alts(ut) if isinstance(ut, Union_) else [ut]) if not (isinstance(strip(a), Prim) and strip(a).p == "none")]
+        has_none = isinstance(ut, Union_) and len(non_none) < len(flat_alts(ut))
+        if val is None and sx.exclude_none and f.undefined and isinstance(f.t, Ann):
+            raise Unspecified("exclude_none on Union[Annotated[Optional[X], ...], UndefinedType] (typing does not flatten the nested union)")
         if val is None and sx.exclude_none and not non_none:
             raise Unspecified("exclude_none on a field whose type is exactly None")
         if is_undefined(val):
